@@ -3,6 +3,11 @@ use bitcask::net::frame::Frame;
 
 pub fn unhex(s: &str) -> Vec<u8> {
     let s = s.trim();
+    // "<n>x<hh>" = n copies of one byte (compact form for big payloads)
+    if let Some((n, b)) = s.split_once('x') {
+        let n: usize = n.parse().expect("repeat count");
+        return vec![u8::from_str_radix(b, 16).expect("hex byte"); n];
+    }
     if s == "-" || s.is_empty() {
         return Vec::new();
     }
@@ -20,6 +25,13 @@ pub fn unhex(s: &str) -> Vec<u8> {
 pub fn hex(b: &[u8]) -> String {
     if b.is_empty() {
         return "-".to_string();
+    }
+    if b.len() > 64 {
+        let mut h: u64 = 0;
+        for x in b {
+            h = (h * 31 + *x as u64) % 4294967296;
+        }
+        return format!("#{}#{}", b.len(), h);
     }
     let mut s = String::with_capacity(b.len() * 2);
     for x in b {
